@@ -964,6 +964,22 @@ fn strings(out: &mut Vec<Decl>) {
         d.default = Some(DefaultSpec { macro_text: mt.into(), neutral_text: mt.into(), class: class.into() });
         out.push(with_derives(d, &[Tr::Debug, Tr::Clone, Tr::PartialEq, Tr::Default, Tr::TryFrom]));
     }
+    // vacuous rules (always satisfied) still own their error variant and their place in the order
+    for (i, vals) in [
+        vec![ValSpec::LenCharMin(lit_u(0)), ValSpec::LenCharMax(lit_u(8))],
+        vec![ValSpec::LenCharMax(lit_u(8)), ValSpec::LenCharMin(lit_u(0))],
+        vec![ValSpec::NotEmpty, ValSpec::LenCharMin(lit_u(0))],
+        vec![ValSpec::LenCharMin(lit_u(0)), ValSpec::Predicate(f("p_has_at", FnForm::Path))],
+        vec![ValSpec::LenCharMin(lit_u(1)), ValSpec::NotEmpty],
+        vec![ValSpec::LenCharMin(lit_u(0))],
+        vec![ValSpec::LenCharMax(spelled("type-max", "usize::MAX", "usize::MAX", Num::U(u64::MAX as u128), false)), ValSpec::NotEmpty],
+    ]
+    .into_iter()
+    .enumerate()
+    {
+        let d = std(Decl::new(inner), vals).tag(&format!("str-vacuous-rule:{i}"));
+        out.push(with_derives(d, &[Tr::Debug, Tr::Clone, Tr::PartialEq, Tr::TryFrom, Tr::FromStr, Tr::Deserialize]));
+    }
     // contradictory expression-valued length bounds: every string violates a rule, many violate both,
     // and the reported variant must still be the first violated rule in the declared order
     {
